@@ -580,6 +580,9 @@ class SymFloat:
     def __float__(self):
         raise TypeError('symbolic float leaked into C code (float())')
 
+    def __bool__(self):
+        return cur().branch(self.t != 0)          # float truthiness: non-zero
+
     def __index__(self):
         raise TypeError('symbolic float used as index')
 
@@ -773,6 +776,9 @@ class SymInt:
 
     def __init__(self, t, lo=None, hi=None):
         self.t, self.lo, self.hi = t, lo, hi
+
+    def __bool__(self):
+        return cur().branch(self.t != 0)
 
     def concretize(self):
         ex = cur()
